@@ -108,6 +108,10 @@ pub fn run(args: &[String]) {
                             let s = c2pa::settings::Settings::new().with_json(r#"{"verify": {"verify_trust": false, "verify_after_sign": false}, "builder": {"thumbnail": {"enabled": false}}}"#);
                             let _c = s.and_then(|s| Context::new().with_settings(s));
                             let _d = c2pa::settings::Settings::default();
+                            // contexts configured from strings (JSON and TOML) and values
+                            let _c2 = Context::new().with_settings("[verify]\nverify_trust = false\nverify_after_sign = false\n[builder.thumbnail]\nenabled = false\n");
+                            let _c3 = Context::new().with_settings(r#"{"verify": {"verify_trust": false}}"#);
+                            let _c4 = Context::new().with_settings(serde_json::json!({"verify": {"verify_trust": false}}));
                             let mut u = c2pa::settings::Settings::new();
                             let _ = u.update_from_str("[verify]\nverify_trust = false\n", "toml");
                             let after = tls_snapshot();
